@@ -154,6 +154,16 @@ fn bytes_roundtrip<V: StoreBytes, M: Machine>(m: M, k: u32, a: V, size: usize) -
 /// group numbering (shared by all types; a type that lacks a group maps it to bit0)
 pub const GROUPS: [&str; 12] = ["bit0", "rot32", "rot64", "arith", "swap", "words4", "lanewords4", "extract_insert", "lanes", "bytes", "eq", "special"];
 
+/// lane index for extract/insert: in range, unless bit 7 of imm is set - then any small index, possibly out of range
+/// (every backend must then behave alike: all refuse, or all return the same)
+fn idx(imm: u32, shift: u32, lanes: u32) -> u32 {
+    if imm & 0x80 != 0 {
+        (imm >> shift) % 8
+    } else {
+        (imm >> shift) % lanes
+    }
+}
+
 fn exec<M: Machine>(m: M, ty: usize, group: usize, k: u32, imm: u32, regs: &mut Regs, dst: usize, ia: usize, ib: usize)
 where
     M::u32x4: PartialEq,
@@ -171,7 +181,7 @@ where
                 3 => arith(k, a, b),
                 5 => words4(k, a),
                 6 => lanewords4(k, a),
-                7 => a.insert(b.extract(imm % 4), (imm >> 2) % 4),
+                7 => a.insert(b.extract(idx(imm, 0, 4)), idx(imm, 3, 4)),
                 8 => {
                     let l: [u32; 4] = a.to_lanes();
                     let p = (imm % 4) as usize;
@@ -200,7 +210,7 @@ where
                 1 => rot32(k, a),
                 2 => a.rotate_each_word_right32(),
                 3 => arith(k, a, b),
-                7 => a.insert(b.extract(imm % 2), (imm >> 1) % 2),
+                7 => a.insert(b.extract(idx(imm, 0, 2)), idx(imm, 3, 2)),
                 8 => {
                     let l: [u64; 2] = a.to_lanes();
                     m.vec([l[1], l[0]])
@@ -237,7 +247,7 @@ where
             let r: M::u32x4x2 = match group {
                 1 => rot32(k, a),
                 3 => arith(k, a, b),
-                7 => a.insert(b.extract(imm % 2), (imm >> 1) % 2),
+                7 => a.insert(b.extract(idx(imm, 0, 2)), idx(imm, 3, 2)),
                 8 => {
                     let l: [M::u32x4; 2] = a.to_lanes();
                     M::u32x4x2::from_lanes([l[1], l[0]])
@@ -254,7 +264,7 @@ where
                 1 => rot32(k, a),
                 2 => a.rotate_each_word_right32(),
                 3 => arith(k, a, b),
-                7 => a.insert(b.extract(imm % 2), (imm >> 1) % 2),
+                7 => a.insert(b.extract(idx(imm, 0, 2)), idx(imm, 3, 2)),
                 8 => {
                     let l: [M::u64x2; 2] = a.to_lanes();
                     M::u64x2x2::from_lanes([l[1], l[0]])
@@ -272,7 +282,7 @@ where
                 2 => a.rotate_each_word_right32(),
                 3 => arith(k, a, b),
                 5 => words4(k, a),
-                7 => a.insert(b.extract(imm % 4), (imm >> 2) % 4),
+                7 => a.insert(b.extract(idx(imm, 0, 4)), idx(imm, 3, 4)),
                 8 => {
                     let l: [u64; 4] = a.to_lanes();
                     let p = (imm % 4) as usize;
@@ -290,7 +300,7 @@ where
                 1 => rot32(k, a),
                 2 => a.rotate_each_word_right32(),
                 4 => swap(k, a),
-                7 => a.insert(b.extract(imm % 2), (imm >> 1) % 2),
+                7 => a.insert(b.extract(idx(imm, 0, 2)), idx(imm, 3, 2)),
                 8 => {
                     let l: [M::u128x1; 2] = a.to_lanes();
                     M::u128x2::from_lanes([l[1], l[0]])
@@ -306,7 +316,7 @@ where
                 1 => rot32(k, a),
                 3 => arith(k, a, b),
                 6 => lanewords4(k, a),
-                7 => a.insert(b.extract(imm % 4), (imm >> 2) % 4),
+                7 => a.insert(b.extract(idx(imm, 0, 4)), idx(imm, 3, 4)),
                 8 => {
                     let l: [M::u32x4; 4] = a.to_lanes();
                     let p = (imm % 4) as usize;
@@ -343,7 +353,7 @@ where
                 1 => rot32(k, a),
                 2 => a.rotate_each_word_right32(),
                 3 => arith(k, a, b),
-                7 => a.insert(b.extract(imm % 4), (imm >> 2) % 4),
+                7 => a.insert(b.extract(idx(imm, 0, 4)), idx(imm, 3, 4)),
                 8 => {
                     let l: [M::u64x2; 4] = a.to_lanes();
                     M::u64x2x4::from_lanes([l[3], l[0], l[1], l[2]])
@@ -359,7 +369,7 @@ where
                 1 => rot32(k, a),
                 2 => a.rotate_each_word_right32(),
                 4 => swap(k, a),
-                7 => a.insert(b.extract(imm % 4), (imm >> 2) % 4),
+                7 => a.insert(b.extract(idx(imm, 0, 4)), idx(imm, 3, 4)),
                 8 => {
                     let l: [M::u128x1; 4] = a.to_lanes();
                     M::u128x4::from_lanes([l[1], l[2], l[3], l[0]])
@@ -488,7 +498,7 @@ impl Scenario for S8 {
             // every machine of this build refuses: the transcript records it (another build may not)
             w.log = (w.log.rotate_left(7) ^ op.hash()).wrapping_mul(0x9e37_79b9_7f4a_7c15) ^ 0xdead;
             stats.hit("probe.op_panics_on_every_machine_of_this_build");
-            stats.hit(&format!("refused_everywhere.{}.{}.k{}", TYPES[ty], GROUPS[group], k % 8));
+            stats.hit(&format!("refused_everywhere.{}.{}", TYPES[ty], GROUPS[group]));
             return Step::Done;
         }
         let r0 = w.regs[0];
